@@ -1777,6 +1777,10 @@ func (m *Monitors) unrecordedClass(j *execution.Job) string {
 	case j.Status.Condition.Finished != nil:
 		return "unrecorded-task:job-finished"
 	}
+	if j.Status.Phase == execution.JobTerminating {
+		// the controller has decided the completion strategy: the Job only waits for its remaining tasks to stop
+		return "unrecorded-task:strategy-decided"
+	}
 	return "unrecorded-task:adoptable"
 }
 
